@@ -52,6 +52,83 @@ def _family_of_pc(pc, variants, who='self.family'):
     return allowed
 
 
+_BOUNDS = {}
+
+
+def bound_places(f):
+    """(lower, upper): the places of a StandardBasis that hold its bounds, as symbol names relative to `self` ('self.min',
+    'self.max' in the reference tree; 'self.bounds.min' when the pair lives in a nested struct) — DISCOVERED from what
+    Basis::set_value compares its argument with and stores: the lower bound is the place stored when the argument is below
+    both, the upper bound the one stored when it is above both.  None if set_value does not have that shape."""
+    k = id(f)
+    if k in _BOUNDS:
+        return _BOUNDS[k]
+    _BOUNDS.clear()
+    _BOUNDS[k] = None
+    b = f.one(self_adt='basis::StandardBasis', trait='Basis', name='set_value')
+    if b is None:
+        return None
+    sx = SymEx(f, models=[recorder({'basis::SharedValue::set_value': 'cellwrite'})])
+    try:
+        outs = sx.run(b, [SYM('self'), SYM('x')])
+    except Exception:      # noqa: BLE001
+        return None
+    if not outs or sx.aborted:
+        return None
+    names = set()
+
+    def walk(v):
+        if isinstance(v, tuple):
+            if v and v[0] == 'sym' and isinstance(v[1], str) and v[1].startswith('self.') and not v[1].startswith('self.value') \
+                    and v[1] != 'self.old':
+                names.add(v[1])
+            for x2 in v:
+                if isinstance(x2, tuple):
+                    walk(x2)
+    for o in outs:
+        for c in o.pc:
+            if c[0] == 'cond':
+                walk(c[1])
+    if len(names) != 2:
+        return None
+    a, c2 = sorted(names)
+    for lo_n, hi_n in ((a, c2), (c2, a)):
+        good = True
+        for x, want in ((-5, lo_n), (15, hi_n)):
+            env = {'x': Fraction(x), lo_n: Fraction(0), hi_n: Fraction(10), 'self.value.value': Fraction(7), 'self.old': Fraction(7)}
+            feas = []
+            for o in outs:
+                try:
+                    if all(bool(eval_num(c[1], env)) == c[2] for c in o.pc if c[0] == 'cond'):
+                        feas.append(o)
+                except (KeyError, ValueError):
+                    feas = None
+                    break
+            if not feas or len(feas) != 1:
+                good = False
+                break
+            writes = [e for e in feas[0].effects if e[0] == ('rec', 'cellwrite')]
+            if len(writes) != 1 or sx.deep(feas[0].st, writes[0][1][1]) != SYM(want):
+                good = False
+                break
+        if good:
+            _BOUNDS[k] = (lo_n, hi_n)
+            return _BOUNDS[k]
+    return None
+
+
+def bound_of(f, item, which):
+    """The lower (which=0) / upper (which=1) bound stored in a StandardBasis value."""
+    bp = bound_places(f)
+    path = (bp[which] if bp else ('self.min', 'self.max')[which]).split('.')[1:]
+    v = item
+    for nm in path:
+        v = sfield(v, nm) if isinstance(v, tuple) and v[0] == 'struct' else None
+        if v is None:
+            return None
+    return v
+
+
 def _basis_items(f, b, argv):
     """(sx, [(outcome, [item values])]) of a function that returns a Vec of bases: the returned sequence by value (vec!
     literal, pushes, extends, collected chains — pk/sym.py sequences); if some path's result is not a finite sequence, the
@@ -93,7 +170,7 @@ def dof_table(f):
                 return None, 'pushed item is not a StandardBasis literal', b
             cell = sfield(item, 'value')
             fld = cell[1][5:] if cell and cell[0] == 'sym' and cell[1].startswith('self.') else None
-            pushes.append((fld, sfield(item, 'min'), sfield(item, 'max')))
+            pushes.append((fld, bound_of(f, item, 0), bound_of(f, item, 1)))
         for v in fams:
             if v in table and table[v] != pushes:
                 return None, 'two paths give different bases for family %s' % v, b
@@ -145,7 +222,7 @@ def site_basis_table(f):
                 return None, 'pushed item is not a StandardBasis literal', b
             cell = sfield(item, 'value')
             fld = cell[1][5:] if cell and cell[0] == 'sym' and cell[1].startswith('self.') else None
-            key = (fld, sfield(item, 'min'), sfield(item, 'max'))
+            key = (fld, bound_of(f, item, 0), bound_of(f, item, 1))
             seen[repr(key)] = key
     return list(seen.values()), None, b
 
